@@ -553,6 +553,15 @@ def regenerate(ctx):
     ctx.note(r.stdout.strip().splitlines()[-1] if r.stdout.strip() else "gen_c18: no output")
     if r.returncode != 0:
         ctx.tie_ok = False; ctx.broken.append({"kind": "translator failed closed", "out": r.stdout[-800:]})
+        # The wrapper table can no longer be read off the source, so nothing is shown about this tree.  The search for a
+        # concrete failing input goes on with the facts of the last tree the translator could read (committed snapshot):
+        # the harness still calls the real wrappers next to their C++ twins under the sanitizers, and the property's own
+        # oracle (status <=> twin outcome, crashes, leaks, double releases) does not depend on those facts.
+        snap = os.path.join(VERIF, "bin", "props", "C18_side_snapshot.json")
+        if os.path.exists(snap):
+            ctx.note("translator failed closed: searching for a failing input with the wrapper facts of bin/props/C18_side_snapshot.json")
+            ctx.coverage["wrapper_facts"] = "snapshot (translator failed closed on this tree)"
+            return json.load(open(snap))
         return None
     return json.load(open(side_path))
 
